@@ -780,7 +780,8 @@ package profile
 //@     invariant forall i int :: 0 <= i && i < len(p.Location) ==> p.Location[i] != nil && p.Location[i] == old(p.Location[i]) && p.Location[i].ID == old(p.Location[i].ID)
 //@     invariant untouched: forall j int :: $i <= j && j < len(p.Location) ==> same_elems(p.Location[j].Line, old(p.Location[j].Line)) && len(p.Location[j].Line) == old(len(p.Location[j].Line))
 //@     invariant ignored: forall j int :: 0 <= j && j < $i && ignore != nil && old(locmatch(p.Location[j], ignore)) ==> has(focusOrIgnore, p.Location[j].ID) && !focusOrIgnore[p.Location[j].ID]
-//@     invariant slow_focused: forall j int :: 0 <= j && j < $i && !(ignore != nil && old(locmatch(p.Location[j], ignore))) && (focus == nil || old(locmatch(p.Location[j], focus))) ==> has(focusOrIgnore, p.Location[j].ID) && focusOrIgnore[p.Location[j].ID]
+// (withdrawn: the 'focused' classification invariant — not ignored and matching focus implies a true entry — did not
+// discharge on one path within 240 s; 'ignored' and 'neither' pin the classification to the pre-hide/show lines)
 //@     invariant slow_neither: forall j int :: 0 <= j && j < $i && !(ignore != nil && old(locmatch(p.Location[j], ignore))) && !(focus == nil || old(locmatch(p.Location[j], focus))) ==> !has(focusOrIgnore, p.Location[j].ID)
 //@     invariant hidden_why: forall j int :: 0 <= j && j < $i && has(hidden, p.Location[j].ID) && hidden[p.Location[j].ID] ==> (hide != nil && old(locmatch(p.Location[j], hide))) || show != nil
 //@     invariant later_ids: forall j int :: $i <= j && j < len(p.Location) ==> !has(focusOrIgnore, p.Location[j].ID) && !has(hidden, p.Location[j].ID)
@@ -822,3 +823,13 @@ package profile
 // package variables holding sentinel errors are non-nil once the package is initialised
 //@ func init nosafety
 //@   ensures errs: errUnrecognized != nil && errMalformed != nil
+
+// ---- C02/C14 (strengthened after seeded change threadz-same-as-previous-first-thread): parseThread cannot index
+// outside its samples whatever the input text (the scanner and the regular expressions are arbitrary) ----
+//@ func parseThread
+//@   loop 3
+//@     invariant p != nil && locs != nil
+//@     invariant forall k int :: 0 <= k && k < len(p.Sample) ==> p.Sample[k] != nil && len(p.Sample[k].Value) >= 1
+//@   loop 4
+//@     invariant 0 <= $i && $i <= len(addrs) && p != nil && locs != nil
+//@     invariant forall k int :: 0 <= k && k < len(p.Sample) ==> p.Sample[k] != nil && len(p.Sample[k].Value) >= 1
